@@ -272,15 +272,21 @@ func runC13(c *core.Ctx) {
 		}
 		c13Judge(c, d, s, []string{"arbitrary", "one-foreign-byte", "crlf-inserted", "padding", "symbols", "other-alphabet"}[(i/len(decs))%6])
 	})
-	// every single byte value inside an otherwise canonical string, for every decoder
-	c.Job("every-byte-value", 256*len(decs), func(i int, r *core.Rand) {
+	// every single byte value at every position of an otherwise canonical string of more than one
+	// quantum (the standard decoders treat some bytes differently near the end of the input),
+	// for every decoder
+	probe := []byte("0123456789abcdef0123") // 20 bytes: 32 base32 symbols, 27 base64 symbols + 1 pad
+	c.Job("every-byte-value-every-position", 256*len(decs), func(i int, r *core.Rand) {
 		d := decs[i%len(decs)]
 		ch := byte(i / len(decs))
-		e := []byte(encodeFor(d, []byte("0123456789"))) // 10 bytes: no padding in either encoding? (b32: 16 symbols, b64: 16 with '==')
-		e[3] = ch
-		c13Judge(c, d, string(e), "every-byte-value")
+		e := []byte(encodeFor(d, probe))
+		for pos := 0; pos < len(e); pos++ {
+			x := append([]byte{}, e...)
+			x[pos] = ch
+			c13Judge(c, d, string(x), "every-byte-value")
+		}
 	})
-	c.Exhaustive("each of the 256 byte values substituted into a canonical encoding, for every decoder")
+	c.Exhaustive("each of the 256 byte values substituted at every position of a canonical multi-quantum encoding, for every decoder")
 
 	// size-guarded variants at their documented limits
 	c.Job("limits", 1, func(i int, r *core.Rand) {
